@@ -59,9 +59,9 @@ TEXT = {
         'design_ref': 'DESIGN.md §4 C13',
     },
     'C07': {
-        'text': 'Partial, bounded where stated. Contracts "decode is total; an accepted string re-encodes to itself; encoded_len() equals the bytes produced; value round-trips" are discharged by Kani on the real codecs: integers and length-prefixed vectors (prefix full-domain), field elements of the three Montgomery fields (canonical range, mask, little-endian; complete), Prio3 messages and Poplar1 sketch/state tags at one instance each (bounded; the structure is instance-independent), Poplar1AggregationParam::encoded_len for every level (complete).',
+        'text': 'Partial, bounded where stated. Verus proves the three length-prefixed vector encoders for any item type and count (prefix == bytes produced, overflow => error). Contracts "decode is total; an accepted string re-encodes to itself; encoded_len() equals the bytes produced; value round-trips" are discharged by Kani on the real codecs: integers and length-prefixed vectors (prefix full-domain), field elements of the three Montgomery fields (canonical range, mask, little-endian; complete), Prio3 messages and Poplar1 sketch/state tags at one instance each (bounded; the structure is instance-independent), Poplar1AggregationParam::encoded_len for every level (complete).',
         'note': 'Not decided: Field255-bearing messages, IdpfPublicShare bit packing, ping-pong/Prio2 (see C12, C19). Message-level harnesses use the identity instance of the Montgomery abstraction.',
-        'technique': 'assume-guarantee contract harnesses on the real codecs (Kani/CBMC), symbolic byte strings',
+        'technique': 'assume-guarantee contract harnesses on the real codecs (Kani/CBMC), symbolic byte strings + function contracts on the extracted vector encoders (Verus)',
         'design_ref': 'DESIGN.md §4 C07',
     },
     'C08': {
